@@ -189,7 +189,16 @@ type rawResp struct {
 
 // rawRequest opens a stream to the server, writes the request (a pb message or raw bytes) and reads frames
 // until the stream ends. maxFrames bounds the read loop.
-func rawRequest(ctx context.Context, from host.Host, to peer.ID, req *p2p_pb.HeaderRequest, raw []byte, maxFrames int) (out rawResp) {
+// rawRequestStall is rawRequest for a client that sends only the given bytes and then keeps its side open.
+func rawRequestStall(ctx context.Context, from host.Host, to peer.ID, raw []byte) rawResp {
+	return rawRequestOpt(ctx, from, to, nil, raw, 200, true)
+}
+
+func rawRequest(ctx context.Context, from host.Host, to peer.ID, req *p2p_pb.HeaderRequest, raw []byte, maxFrames int) rawResp {
+	return rawRequestOpt(ctx, from, to, req, raw, maxFrames, false)
+}
+
+func rawRequestOpt(ctx context.Context, from host.Host, to peer.ID, req *p2p_pb.HeaderRequest, raw []byte, maxFrames int, stall bool) (out rawResp) {
 	t0 := time.Now()
 	defer func() { out.Elapsed = time.Since(t0) }()
 	s, err := from.NewStream(ctx, to, exProtocolID)
@@ -210,7 +219,9 @@ func rawRequest(ctx context.Context, from host.Host, to peer.ID, req *p2p_pb.Hea
 		_ = s.Reset()
 		return out
 	}
-	_ = s.CloseWrite()
+	if !stall {
+		_ = s.CloseWrite()
+	}
 	for i := 0; i < maxFrames; i++ {
 		resp := new(p2p_pb.HeaderResponse)
 		_, err := serde.Read(s, resp)
